@@ -152,6 +152,23 @@ def sign_rule(chk, repo, rid):
         chk.ob(rid, where(repo, fi, c), f'{fi.name}: the evolved vector is the flattened tensor `{tens}`', ok2,
                norm(c.args[1]), key=f'{rid}|{q}|start')
         n += 2
+        # must-pass-through: every exit of the local step returns the exponentiated tensor; the only exit that may hand the
+        # input back is one guarded by a vanishing time step
+        parents = {}
+        for p_ in ast.walk(fi.node):
+            for ch in ast.iter_child_nodes(p_):
+                parents[ch] = p_
+        for r_ in [x for x in ast.walk(fi.node) if isinstance(x, ast.Return)]:
+            val = expand(r_.value, defs) if r_.value is not None else None
+            through = val is not None and any(isinstance(x, ast.Call) and norm(x.func) == 'expm_krylov' for x in ast.walk(val))
+            if not through:
+                g = parents.get(r_)
+                through = isinstance(g, ast.If) and r_ in g.body and norm(g.test) in ('dt == 0', 'dt == 0.0', 'not dt', '0 == dt') \
+                    and r_.value is not None and norm(r_.value) == tens
+            chk.ob(rid, where(repo, fi, r_), f'{fi.name}: every exit returns the result of expm_krylov applied to `{tens}` '
+                   f'(no path hands the tensor back un-evolved, except for dt == 0)', through,
+                   norm(r_)[:80], key=f'{rid}|{q}|exit|{norm(r_)[:40]}')
+            n += 1
     ek = repo.func('krylov.expm_krylov')
     uses = []
     for node in ast.walk(ek.node):
